@@ -468,6 +468,10 @@ func (fd *Client) BatchWriteItem(ctx context.Context, input *dynamodb.BatchWrite
 		return &dynamodb.BatchWriteItemOutput{}, err
 	}
 
+	if err := fd.validateBatchWriteRequests(input); err != nil {
+		return &dynamodb.BatchWriteItemOutput{}, err
+	}
+
 	unprocessed := map[string][]types.WriteRequest{}
 
 	for table, reqs := range input.RequestItems {
@@ -534,6 +538,37 @@ func (fd *Client) BatchGetItem(ctx context.Context, input *dynamodb.BatchGetItem
 		Responses:       responses,
 		UnprocessedKeys: unprocessed,
 	}, nil
+}
+
+// validateBatchWriteRequests rejects the whole batch before anything is written when a request can not be applied
+func (fd *Client) validateBatchWriteRequests(input *dynamodb.BatchWriteItemInput) error {
+	fd.mu.Lock()
+	defer fd.mu.Unlock()
+
+	if fd.forceFailureErr != nil {
+		return nil
+	}
+
+	for tableName, reqs := range input.RequestItems {
+		table, err := fd.getTable(tableName)
+		if err != nil {
+			return mapKnownError(err)
+		}
+
+		for _, req := range reqs {
+			if req.PutRequest != nil {
+				err = table.ValidateWriteRequest(mapDynamoToTypesMapItem(req.PutRequest.Item), false)
+			} else {
+				err = table.ValidateWriteRequest(mapDynamoToTypesMapItem(req.DeleteRequest.Key), true)
+			}
+
+			if err != nil {
+				return &smithy.GenericAPIError{Code: "ValidationException", Message: err.Error()}
+			}
+		}
+	}
+
+	return nil
 }
 
 func validateWriteRequest(req types.WriteRequest) error {
